@@ -1,8 +1,9 @@
 import PydlVerif.Model.JsonUtil
 import PydlVerif.Model.Wave
+import PydlVerif.Model.WaveFit
 open Lean
 namespace PydlVerif.Driver.C19
-open PydlVerif PydlVerif.Wave
+open PydlVerif PydlVerif.Wave PydlVerif.WaveFit
 
 /-- the Float instance of the `pow10` parameter: libm `pow(10, x)` -/
 def pow10F (x : Float) : Float := Float.pow 10.0 x
@@ -89,7 +90,64 @@ def handle (j : Json) : Except String Json := do
     let masks ← J.fOpt (J.list maskOf) j "mask"
     let toair ← J.fBool j "toair"
     let curves ← curvesOf (← J.fld j "curves")
-    match filterThru toair lds curves wave masks flux with
+    -- "okpw": the same with numpy's pairwise sums (`filterThruG filterMeanPw`)
+    match filterThru toair lds curves wave masks flux, filterThruG filterMeanPw toair lds curves wave masks flux with
+    | .ok r, .ok rp => pure (Json.mkObj [("ok", J.ofList (J.ofList J.ofFloat) r), ("okpw", J.ofList (J.ofList J.ofFloat) rp)])
+    | .error e, _ => pure (Json.mkObj [("err", Json.str e)])
+    | _, .error e => pure (Json.mkObj [("err", Json.str e)])
+  | "fthru_e2e" =>
+    -- filter_thru(flux, waveimg, mask, toair) end to end: the trace-set fit of d log10(lambda) is computed by the model
+    -- (C13 model, Gaussian elimination for the 4x4 normal equations); also returns the fitted image (before np.absolute)
+    let wave ← J.list (J.list J.float) (← J.fld j "wave")
+    let flux ← J.list (J.list J.float) (← J.fld j "flux")
+    let masks ← J.fOpt (J.list maskOf) j "mask"
+    let toair ← J.fBool j "toair"
+    let curves ← curvesOf (← J.fld j "curves")
+    let lds := fittedImg Float.log10 Trace.gaussSolve (flux.headD []).length (toairImg toair wave)
+    match lds, filterThruE2E Float.log10 Trace.gaussSolve toair curves wave masks flux with
+    | .ok l, .ok r => pure (Json.mkObj [("ok", J.ofList (J.ofList J.ofFloat) r), ("lds", J.ofList (J.ofList J.ofFloat) l)])
+    | .error e, _ => pure (Json.mkObj [("err", Json.str e)])
+    | _, .error e => pure (Json.mkObj [("err", Json.str e)])
+  | "e2e_rat" =>
+    -- exact run of the end-to-end model at core `Rat` with `log10 := id` on an exactly affine "log-wavelength" image
+    -- (row t = c0 + c1[t]·i): the fitted image must be exactly c1[t] in every pixel (theorem fit_loglinear) and the band
+    -- flux exactly Σ resp·f / Σ resp (theorem e2e_loglinear_closed); Gaussian elimination is exact here
+    let rl := J.list (fun v => do pure (ratOfBits (← J.bits v)))
+    let wave : List (List Rat) ← J.list rl (← J.fld j "wave")
+    let flux : List (List Rat) ← J.list rl (← J.fld j "flux")
+    let xp : List Rat ← rl (← J.fld j "xp")
+    let fp : List Rat ← rl (← J.fld j "fp")
+    let c1 : List Rat ← rl (← J.fld j "c1")
+    let nx := (flux.headD []).length
+    let idR : Rat → Rat := fun x => x
+    match List.zip xp fp with
+    | [] => pure (Json.mkObj [("err", Json.str "ValueError")])
+    | (x0, f0) :: rest =>
+      let fitOk : Bool := match fittedImg idR Trace.gaussSolve nx wave with
+        | .ok l => decide (l = c1.map (fun c => List.replicate nx c))
+        | .error _ => false
+      let sums : List (Rat × Rat) := (List.zip wave flux).map (fun (w, f) =>
+        let r := w.map (npInterp x0 f0 rest)
+        (sumFrom (0 : Rat) (List.zipWith (· * ·) f r), sumFrom (0 : Rat) r))
+      let overlap : Bool := sums.all (fun p => decide (0 < p.2))
+      let resOk : Bool := match filterThruE2E idR Trace.gaussSolve false [(x0, f0) :: rest] wave none flux with
+        | .ok r => decide (r = sums.map (fun p => [p.1 / p.2]))
+        | .error _ => false
+      pure (Json.mkObj [("fit_ok", Json.bool fitOk), ("res_ok", Json.bool resOk), ("overlap", Json.bool overlap)])
+  | "fthru_top" =>
+    -- the whole call: filter_prefix ok?, waveimg or wset (func, xmin, xmax, coeff rows) or neither
+    let flux ← J.list (J.list J.float) (← J.fld j "flux")
+    let masks ← J.fOpt (J.list maskOf) j "mask"
+    let toair ← J.fBool j "toair"
+    let prefixOk ← J.fBool j "prefix_ok"
+    let curves ← curvesOf (← J.fld j "curves")
+    let wave ← J.fOpt (J.list (J.list J.float)) j "wave"
+    let wset ← J.fOpt (fun w => do
+      let coeff ← J.list (J.list J.float) (← J.fld w "coeff")
+      let t : Trace.TSet Float := { func := ← J.fStr w "func", xmin := ← J.fFloat w "xmin", xmax := ← J.fFloat w "xmax",
+                                    coeff := (coeff.map List.toArray).toArray, ncoeff := (coeff.headD []).length }
+      pure t) j "wset"
+    match filterThruTop Float.log10 pow10F Trace.gaussSolve prefixOk toair curves wave wset masks flux with
     | .ok r => pure (Json.mkObj [("ok", J.ofList (J.ofList J.ofFloat) r)])
     | .error e => pure (Json.mkObj [("err", Json.str e)])
   | "rt_rat" =>
